@@ -142,6 +142,18 @@ def _resume_runs(env: Env, out: Outcome, n: int, extra: list[dict]) -> None:
         # auto-generated waiter ids are recorded by the step body as auto<type>:<own requirement value>
         rehydrated |= {(nm, f"auto{ET.TY_ID[w.waiting_for_event]}:{(w.requirements or {}).get('k')!r}") for nm, w in waiting
                        if (w.has_requirements or w.requirements) and str(w.waiter_id).startswith("waiter_")}
+        # every waiter that lost its requirements in the snapshot is re-registered by re-pinging its step when the run is resumed:
+        # the first ticks the resumed run reduces are those re-pings, one per such waiter (before anything else can resolve it)
+        need = sorted({(nm, getattr(w.event, "uid", None)) for nm, w in waiting
+                       if w.has_requirements and w.resolved_event is None and not w.timed_out}, key=repr)
+        if need and tr2.outcome[0] != "invalid":
+            from workflows.runtime.types import ticks as _T
+            first = [c.tick for c in tr2.calls if c.kind == "reduce"][: len(need)]
+            got = sorted({(t.step_name, getattr(t.event, "uid", None)) for t in first if isinstance(t, _T.TickAddEvent)}, key=repr)
+            if got != need:
+                out.violations.append(Violation("C10/waiter_not_repinged_on_resume",
+                                                f"waiters that lost their requirements in the snapshot: {need}; the resumed run first reduced re-pings for {got} only: "
+                                                f"the others stay registered with requirements={{}} and accept any event of the awaited type", case))
         for v in monitors.mon_c10(tr2, earlier_users=monitors.c10_waiter_users(tr1)):
             v.replay = case
             if v.signature == "C10/resumed_more_than_once" and any(f"'{nm}'" in v.what and f"'{wid}'" in v.what for nm, wid in rehydrated if (nm, wid) in rehydrated):
